@@ -265,6 +265,7 @@ pub fn check_case(c: &Case, rep: &mut Report) {
 }
 
 pub fn run(cfg: &Cfg) -> Report {
+    crate::tls::prewarm(false);
     let seed = cfg.seed;
     let per = cfg.n(100, 20_000);
     par_run(cfg, 32 * per, 4, |i, rep| {
